@@ -7,8 +7,9 @@
   (`edit_frame_*`). For `[Metadata]` the two are also stated field by field (`edit_survives_metadata`,
   `edit_frame_metadata`: ten fields, any one edited, the other nine unchanged). `[Metadata]` and `[Colours]` need no
   hypothesis on numbers; `[Editor]`, `[Difficulty]`, `[General]`, `[Events]` hold for every lawful number codec.
-  File level: `edit_survives_records`. Not covered (evaluated by the `edit` oracle / correspondence): the frame
-  extended to the timing and hit-object views (`edit_frame_objects_statement`).
+  File level: `edit_survives_records`. The frame extended to the timing and hit-object views is in
+  Props/C03Frame.lean (`edit_frame_objects`); `edit_frame_objects_statement` below is the older, hypothesis-free
+  reading that is kept as a statement.
 -/
 import RosuModel.Props.C02
 namespace Rosu.C03
